@@ -35,4 +35,9 @@ def cases(seed=0, n=6):
     # numpy reshape in C / Fortran / 'A' index order on C- and Fortran-contiguous data (NP-RESHAPE-ORDER, NP-MEMORY-LAYOUT)
     for layout, order, (shape, new) in itertools.product('CF', 'CFA', (([2, 6], [2, 2, 3]), ([3, 4], [12]), ([2, 3, 2], [6, 2]), ([6], [2, 3]))):
         out.append({'id': f'reshape-{layout}-{order}-{shape}-{new}', 'fn': 'np_reshape', 'layout': layout, 'order': order, 'shape': shape, 'new': new})
+    # stores through views reach the parent array (NP-VIEW-STORE): a row of a transposed array, a slice, an integer row
+    for how in ('transpose-row-mask', 'slice-element', 'row-slice', 'column'):
+        out.append({'id': f'viewstore-{how}', 'fn': 'np_view_store', 'how': how})
+    for k, (vals, pre, post) in enumerate((([0, 1, 1, 0, 1], 0, None), ([1, 1, 0], 0, 0), ([3, 5, 4], None, None), ([0, 0, 1], None, 0), ([1], 0, None))):
+        out.append({'id': f'diff{k}', 'fn': 'np_diff', 'vals': vals, 'prepend': pre, 'append': post})
     return out
